@@ -288,6 +288,8 @@ def class_key(r, pid, backend, symptom, w):
   d = r.d
   if symptom in ('no-fixpoint', 'mismatch') and sv.wrapping_loops(r.f):
     return f'{pid}:for-negative-step:unsigned-counter-wraps'
+  if symptom in ('not-wellformed', 'mismatch') and r.w0.get('wellformed') is False and sv.oob_constant_indices(r.f) and not (backend == 'yosys' and nested_ifc_undeclared(r.f)):
+    return f'{pid}:not-wellformed:index-out-of-declared-range'
   if backend == 'yosys':
     if r.w0.get('wellformed') is False and nested_ifc_undeclared(r.f):
       return f'{pid}:not-wellformed:nested-interface-array-undeclared'
@@ -323,7 +325,9 @@ def report_bad(ctx, r, pid, backend):
   if w['wellformed'] is False:
     bump(f'{backend}:{d.kind}:not-wellformed')
     acc = sorted(member_accesses(r.f))
-    symptoms.append(('not-wellformed', 'emitted text fails sv_wellformed (undeclared identifier / ill-typed select / instance mismatch)' +
+    oob = sv.oob_constant_indices(r.f)
+    symptoms.append(('not-wellformed', 'emitted text fails sv_wellformed (undeclared identifier / ill-typed select / constant index outside the declared range / instance mismatch)' +
+                     (f'; constant index outside the declared range (module, select, index, declared size): {oob[:3]}' if oob else '') +
                      (f'; member access on {acc[:4]}, which is not a struct-typed variable of the module' if acc else ''), {'emitted_text': r.text[:5000]}))
   if w.get('collisions', '[]') != '[]':
     bump(f'{backend}:{d.kind}:multi-driver')
